@@ -85,7 +85,9 @@ def run(tier, seed):
             if mixed_bases:
                 # different prefix bases: same factors and numeric scale within 1e-9
                 try:
-                    ok = a.factors == b.factors and abs(float(a.prefix.quantify()) / float(b.prefix.quantify()) - 1) <= 1e-9
+                    import math as _m
+                    lg = lambda p: float(p.exponent) * _m.log(p.base) if p.base else 0.0  # log of the scale: 2**1500.34 does not fit a float
+                    ok = a.factors == b.factors and abs(lg(a.prefix) - lg(b.prefix)) <= 1e-9
                 except Exception:
                     ok = False
                 if ok:
@@ -172,7 +174,7 @@ def run(tier, seed):
 def replay_body(f):
     if f["mode"] == "scale-or-is":
         return ("a = eval(%r, ns)\nb = eval(%r, ns)\nprint(repr(a), repr(b))\n"
-                "ok = a is b or (a.factors == b.factors and abs(float(a.prefix.quantify()) / float(b.prefix.quantify()) - 1) <= 1e-9)\n"
+                "import math\nlg = lambda p: float(p.exponent) * math.log(p.base) if p.base else 0.0\nok = a is b or (a.factors == b.factors and abs(lg(a.prefix) - lg(b.prefix)) <= 1e-9)\n"
                 "sys.exit(0 if ok else 1)\n" % (f["a"], f["b"]))
     if f["mode"] == "is":
         return "a = eval(%r, ns)\nb = eval(%r, ns)\nprint(repr(a), repr(b))\nsys.exit(0 if a is b else 1)\n" % (f["a"], f["b"])
